@@ -72,3 +72,26 @@ package core
 //@   ensures[base] err == nil ==> p != nil && forwardingOK(p.Forwarding)
 //@   ensures[base] err == nil ==> actionsOK(p)
 //@   ensures[base] err == nil ==> actionsDistinct(p)
+
+// ---------------------------------------------------------------------------------------------
+// Counterparty identifier of forwarding attributes, as a function of the attributes (C08, C12, C20)
+// ---------------------------------------------------------------------------------------------
+
+//@ smt (declare-fun otherCounterparty (Iface) String)
+//@ macro cpOfIface(x) = ite(istype(x, "*types/controller/forwarding.CCTPAttributes"), dec(cast(x, "*types/controller/forwarding.CCTPAttributes").DestinationDomain),
+//@                      ite(istype(x, "*types/controller/forwarding.HypAttributes"), dec(cast(x, "*types/controller/forwarding.HypAttributes").DestinationDomain),
+//@                      ite(istype(x, "*types/controller/forwarding.InternalAttributes"), "noble", otherCounterparty(x))))
+
+//@ func (self ForwardingAttributes) CounterpartyID() (s)
+//@   ensures[C08,C12,C20] ref(self) != 0 ==> s == cpOfIface(self)
+
+// ---------------------------------------------------------------------------------------------
+// Transfer attributes
+// ---------------------------------------------------------------------------------------------
+
+// Valid transfer attributes: both coins have a valid denomination and a strictly positive amount.
+//@ macro coinOK(c) = validDenom(c.Denom) && !isnil(c.Amount) && val(c.Amount) > 0
+//@ macro taOK(ta) = coinOK(ta.sourceCoin) && coinOK(ta.destinationCoin)
+
+//@ func (a *TransferAttributes) Validate() (err)
+//@   ensures[base] err == nil ==> a != nil && taOK(a)
